@@ -32,6 +32,7 @@ class Ctx:
         self.prog = prog
         self.ret_shapes = {}
         self.ret_exprs = {}
+        self.effect_cache = {}
         self.top_interps = {}
         self.write_sets = {}
         self.in_progress = set()
@@ -119,6 +120,34 @@ class Ctx:
                 unknown = True
         res = None if unknown else ws
         self.write_sets[key] = res
+        return res
+
+    def effects(self, key):
+        """for a small local function: {(param index, projection): expression over its parameters} giving the final
+        value of every location it writes through a reference parameter, when all of them are such expressions
+        (setters, constructors-in-place); None otherwise"""
+        if key in self.effect_cache:
+            return self.effect_cache[key]
+        res = None
+        it = self.top_interp(key)
+        ws = self.write_set(key)
+        if it is not None and ws and len(it.body.blocks) <= 12 and len(it.body.return_blocks) == 1:
+            from . import summaries
+            S = it.exit_state(it.body.return_blocks[0])
+            if S is not None and not S.dead:
+                res = {}
+                for i, projs in ws.items():
+                    base = (("P", ("ld", (it.L(i), ()), "entry")), ())
+                    for pr in projs:
+                        v = S.read((base[0], pr))
+                        if summaries.is_entry_expr(v):
+                            res[(i, pr)] = v
+                        else:
+                            res = None
+                            break
+                    if res is None:
+                        break
+        self.effect_cache[key] = res
         return res
 
     def ret_expr(self, key):
@@ -744,8 +773,22 @@ class Interp:
         local = path in self.prog.bodies
         S_pre = S.copy() if local else None
         ws = self.ctx.write_set(path) if local else None
+        eff = self.ctx.effects(path) if (local and ws) else None
         if ws is None:
             self.havoc_args(S, t, args)
+        elif eff is not None:
+            from . import summaries
+            argc = self.prog.bodies[path].arg_count
+            vals = {}
+            for (i, pr), tmpl in eff.items():
+                vals[(i, pr)] = summaries.translate(tmpl, self, S_pre, args, argc)
+            for (i, pr), v in vals.items():
+                base = self.target(args[i - 1])
+                loc = (base[0], base[1] + pr)
+                if v is None:
+                    S.havoc(loc, self.site())
+                else:
+                    S.write(loc, v)
         else:
             for i, (a, op) in enumerate(zip(args, t["args"])):
                 projs = ws.get(i + 1)
